@@ -263,6 +263,20 @@ class Check:
             self.seed = int(os.environ.get("VERIF_SEED", "1"))
         except ValueError:
             self.seed = 1
+        # --replay <file>: re-run the check with the seed and tier recorded in a replay file and say whether the recorded violation recurs
+        self.replaying = None
+        if self.replay_path:
+            try:
+                rep = json.load(open(self.replay_path))
+            except Exception as ex:
+                print("cannot read replay file %s: %s" % (self.replay_path, ex))
+                sys.exit(2)
+            self.replaying = rep.get("signature", "")
+            self.seed = int(rep.get("seed", self.seed))
+            self.tier = rep.get("tier", self.tier)
+            print("REPLAY property=%s seed=%s tier=%s\n  recorded: %s" % (pid, self.seed, self.tier, self.replaying[:300]), flush=True)
+            print("  input / history: " + json.dumps(rep.get("replay"))[:1500], flush=True)
+        self.replay_hit = False
         self.t0 = time.time()
         self.out = os.path.join(OUT, pid)
         shutil.rmtree(self.out, ignore_errors=True)
@@ -487,6 +501,8 @@ class Check:
 
     # ---------------- violations / findings
     def violation(self, sig, replay):
+        if self.replaying is not None and sig == self.replaying:
+            self.replay_hit = True
         """sig: a stable signature string of what fails (used for known-findings matching)."""
         for f in self.findings:
             if f["re"].search(sig):
@@ -528,6 +544,8 @@ class Check:
         self.log("done: evaluations=%d distinct=%d states=%d validated=%d violations=%d known=%s wall=%.1fs" % (
             self.cov["evaluations"], self.cov["distinct_nontrivial"], self.cov["states"],
             self.cov["traces_validated_against_impl"], self.violations, dict(self.known_hits), time.time() - self.t0))
+        if self.replaying is not None:
+            print("REPLAY %s: the recorded violation %s" % (self.pid, "recurred" if self.replay_hit else "did NOT recur (it may depend on the repository state it was recorded on)"), flush=True)
         sys.exit(1 if self.violations else 0)
 
 
